@@ -17,7 +17,7 @@
 struct op { const char *name; void (*fn)(int nt, char **t); };
 
 extern volatile int in_lib;
-extern long long clk_sec, clk_nsec;
+extern long long clk_sec, clk_nsec, clk_step_ns;
 extern int clk_calls;
 extern unsigned char rnd_pattern;
 extern int n_ledger, alloc_count, fail_at, fail_from, trace_on, ledger_errors;
